@@ -92,7 +92,7 @@ class CallMixin:
                 c = NOCONST
                 if lv.kind.isdisjoint(rv.kind) and "?" not in lv.kind and "?" not in rv.kind:
                     c = isinstance(op, ast.IsNot)
-                elif lv.only("none") and rv.only("none"):
+                elif (lv.only("none") and rv.only("none")) or (lv.only("NotImpl") and rv.only("NotImpl")):
                     c = isinstance(op, ast.Is)
                 r = V("bool", False, c)
             elif isinstance(op, (ast.In, ast.NotIn)):
